@@ -188,18 +188,44 @@ func isComment(node Node) bool {
 	return ok
 }
 
+func isWordChar(c byte) bool {
+	return c == '_' || (c >= '0' && c <= '9') || (c >= 'a' && c <= 'z') || (c >= 'A' && c <= 'Z')
+}
+
+// Without a separator, would the text of the next statement be read as a continuation of the previous
+// one? Two words/numbers would merge (x y -> xy, 129 13850 -> 12913850), and a statement starting with
+// ( [ . or a sign would turn into a call, an index, a fraction or a binary operation on the previous one.
+func gluesToPrevious(last string, first byte) bool {
+	if last == "" {
+		return false
+	}
+	switch first {
+	case '(', '[', '.', '-', '+', '^':
+		return true
+	}
+	return isWordChar(last[len(last)-1]) && isWordChar(first)
+}
+
 // Compact mode: Skip comments and decide if we need a space separator or not.
+// The statement is printed to a scratch buffer first, so we can see how it starts.
 func prettyPrintCompact(ps *PrintState, s Node, i int) bool {
 	if isComment(s) {
 		return true
 	}
 	_, prevIsExpr := ps.prev.(*InfixExpression)
 	_, curIsArray := s.(*ArrayLiteral)
-	if curIsArray || (prevIsExpr && ps.last != "}" && ps.last != "]") {
-		if i > 0 {
-			_, _ = ps.Out.Write([]byte{' '})
-		}
+	needSpace := curIsArray || (prevIsExpr && ps.last != "}" && ps.last != "]")
+	last := ps.last
+	out := ps.Out
+	buf := strings.Builder{}
+	ps.Out = &buf
+	s.PrettyPrint(ps)
+	ps.Out = out
+	text := buf.String()
+	if i > 0 && text != "" && (needSpace || gluesToPrevious(last, text[0])) {
+		_, _ = out.Write([]byte{' '})
 	}
+	_, _ = out.Write([]byte(text))
 	return false
 }
 
@@ -232,8 +258,8 @@ func (p Statements) PrettyPrint(ps *PrintState) *PrintState {
 			}
 		} else {
 			prettyPrintLongForm(ps, s, i)
+			s.PrettyPrint(ps)
 		}
-		s.PrettyPrint(ps)
 		ps.prev = s
 		i++
 	}
